@@ -10,7 +10,8 @@ existing one moving to another operand / method / function, breaks a C18 proof a
 composition (does a value that was substituted at one stage reach a scan at another?).
 `fieldsExpandedAtTwoStages` lists the configured fields that are expanded at two stages today; each expansion
 starts from the CONFIGURED text (no stage stores its result into the field the other reads) — proved and sampled
-for the host matcher (`HostGlue`, httphost), read off the source for the others (props.d glue table).
+for the host matcher (`HostGlue`, httphost) and for the request-time side of the reverse proxy's dial address
+(`Dial`, httpdial), read off the source for the others (props.d glue table).
 -/
 import CaddyModel.Gen.ReplacerTree
 
@@ -159,6 +160,23 @@ def replacerTreeTable : List (String × String × String × String × String) :=
 theorem replacer_tree_call_sites_match_source :
     Gen.replacerTreeCallSites = replacerTreeTable.map (fun r => (r.1, r.2.1, r.2.2.1, r.2.2.2.1)) := by
   set_option maxRecDepth 1000000 in decide
+
+/-- **who turns an upstream's `Dial` into an address, and where computed `Dial`s come from** (modules/caddyhttp/
+    reverseproxy). `fillDialInfo` — the one function in which a dial string meets the replacer — is called once per
+    proxy iteration and once by the active health checker; no `Upstream` literal takes its `Dial` from the result
+    of a `fillDialInfo` (`dialInfo.String()`): those that compute one take it from Caddyfile / CLI address parsing,
+    from DNS answers (dynamic upstreams) or from the configured health-check upstream.  A second `fillDialInfo`
+    on the request path, or an upstream built from an expanded address (seeded/C18-placeholder-upstream-resolved-
+    then-expanded-again does both), breaks this without any sampled case — the replacer call itself does not
+    change, so `replacer_tree_call_sites_match_source` alone would not notice. -/
+theorem dial_expansion_sites_match_source :
+    Gen.fillDialInfoCallers = [("healthchecks.go", "doActiveHealthCheckForAllHosts"), ("reverseproxy.go", "proxyLoopIteration")] ∧
+    Gen.upstreamDialLiterals.map (fun r => (r.1, r.2.1)) =
+      [("caddyfile.go", "UnmarshalCaddyfile"), ("caddyfile.go", "UnmarshalCaddyfile"), ("caddyfile.go", "UnmarshalCaddyfile"),
+       ("command.go", "cmdReverseProxy"), ("command.go", "cmdReverseProxy"), ("healthchecks.go", "doActiveHealthCheckForAllHosts"),
+       ("upstreams.go", "GetUpstreams"), ("upstreams.go", "GetUpstreams"), ("upstreams.go", "allNew")] ∧
+    Gen.upstreamDialLiterals.all (fun r => !(r.2.2 == "dialInfo.String()")) = true := by
+  set_option maxRecDepth 100000 in decide
 
 /-- configured fields with an expansion at two different stages: (field, first site, second site) -/
 def fieldsExpandedAtTwoStages : List (String × String × String) := [
